@@ -43,6 +43,7 @@ type EvictPlan struct {
 	IntBack    bool         `json:"interval_back,omitempty"` // with NewIntMs: the interval is then set back to the one the cache started with
 	GapUs      int64        `json:"gap_us,omitempty"`       // time between two population stores in microseconds (default 2000)
 	ShortenIdx int          `json:"shorten,omitempty"`      // tick: after the first complete cycle the lifetime of entry ShortenIdx-1 is cut to 1 ms through UpdateMetadata (what a revalidation does with a shorter default)
+	Budget0    bool         `json:"budget0,omitempty"`      // memory backend, tick: the memory budget is set to 0 % at run time before the trigger: the limit in force is 0 bytes from then on
 	Trigger    string       `json:"trigger"`                // "store" | "tick"
 	TrigSize   int          `json:"trig_size"`
 	Interferer int          `json:"interferer"`     // 0 none; else size of a slow concurrent store on another key
@@ -115,6 +116,11 @@ func genEvictPlan(r *rand.Rand) *EvictPlan {
 	}
 	if p.Trigger == "tick" && r.IntN(4) == 0 {
 		p.ShortenIdx = 1 + r.IntN(n)
+	}
+	if p.Trigger == "tick" && p.Backend == "memory" && p.NewLimit == 0 && r.IntN(4) == 0 {
+		// the other limit of the memory store: its share of the machine's memory. The only share that
+		// is certain to lie below a few MiB is none at all.
+		p.Budget0 = true
 	}
 	if r.IntN(4) == 0 {
 		// a burst: the population arrives within one or two milliseconds
@@ -270,6 +276,9 @@ func runEvictPlan(t *testing.T, planAny any, ctl Ctl) *Result {
 				}
 				config.UpdatePartialFromConfig(cfg, map[string]any{"cache": map[string]any{"max_cache_size": fmt.Sprintf("%dB", p.NewLimit)}})
 			}
+			if p.Budget0 {
+				config.UpdatePartialFromConfig(cfg, map[string]any{"cache": map[string]any{"memory": map[string]any{"memory_budget_percent": float64(0)}}})
+			}
 			if p.NewIntMs > 0 {
 				config.UpdatePartialFromConfig(cfg, map[string]any{"cache": map[string]any{"cleanup_interval": (time.Duration(p.NewIntMs) * time.Millisecond).String()}})
 				if p.IntBack {
@@ -368,6 +377,9 @@ func judgeEvict(p *EvictPlan, res *Result, keys []cache.CacheKey, before, after 
 	limit := p.Limit
 	if p.NewLimit > 0 {
 		limit = p.NewLimit
+	}
+	if p.Budget0 {
+		limit = 0 // the smaller of the two configured limits
 	}
 	target := int64(float64(limit) * 0.8)
 	trigKey := keys[len(p.Entries)].Hex
@@ -518,6 +530,9 @@ func judgeEvict(p *EvictPlan, res *Result, keys []cache.CacheKey, before, after 
 	if p.NewLimit > 0 {
 		res.Probes["limit_changed_at_run_time"]++
 	}
+	if p.Budget0 {
+		res.Probes["memory_budget_lowered_at_run_time"]++
+	}
 	// C13.b: down to 80 % unless only exempt entries are left
 	nonExemptLeft := false
 	for _, k := range survivors {
@@ -528,7 +543,7 @@ func judgeEvict(p *EvictPlan, res *Result, keys []cache.CacheKey, before, after 
 	afterSize := totalAfterOld
 	if afterSize > target && nonExemptLeft {
 		rule := "C13.b"
-		if p.NewLimit > 0 {
+		if p.NewLimit > 0 || p.Budget0 {
 			rule = "C13.f"
 		}
 		res.violate(rule, "not-evicted-to-80-percent", "%s: %d bytes of pre-existing entries remain (> %d) although evictable entries are left: evicted [%s], kept [%s]", desc, afterSize, target, names(lruEvicted), names(survivors))
